@@ -137,7 +137,7 @@ def runicode(rng, digits):
     return "".join(out)
 
 
-def gen_prints(rng, strings):
+def gen_prints(rng, strings, widths=None):
     """t.print cases need the oracles' graphs: ask the implementation for E(s) and the highlighter spans"""
     cases = []
     reqs = []
@@ -145,7 +145,7 @@ def gen_prints(rng, strings):
         for mk in (0, 1):
             if mk == 1 and ":" in s:
                 continue          # the emoji pass acts per chunk inside markup.render: kept out of the oracle
-            reqs.append((mk, s, rng.choice([1, 2, 3, 5, 8, 20, 80, rng.randint(1, 200)])))
+            reqs.append((mk, s, rng.choice(widths or [1, 2, 3, 5, 8, 20, 80, rng.randint(1, 200)])))
     got = common.run_impl("total", [("t.hl", [[mk, s2t(s), W] for mk, s, W in reqs[i:i + 300]])
                                     for i in range(0, len(reqs), 300)], repo=common.REPO)
     flat = []
@@ -171,11 +171,11 @@ def generate(rng, tier):
         flen = full_len
         if op in (OP_GET, OP_GETD, OP_NORM):
             flen = 3 if quick else 4   # same parser as Style.parse; the deeper full sweep runs for op 1
-        if op == OP_TEXT and not quick:
-            flen = 4
+        if op == OP_TEXT:
+            flen = 3 if quick else 4   # Text(...) only filters four control characters
         cases += blocks(op, extras_for(op), TOKENS, flen, 32000)
         cl = core_len
-        if quick and op in (OP_GET, OP_GETD, OP_NORM):
+        if quick and op in (OP_GET, OP_GETD, OP_NORM, OP_TEXT):
             cl = 4             # same parser as Style.parse (op 1 runs the deeper sweep)
         cases += blocks(op, extras_for(op, k=1), CORE[op], cl, 32000)
     # ---- random Unicode
@@ -190,24 +190,29 @@ def generate(rng, tier):
         chunk = [s2t(d) for d in digits[lo:lo + 64]]
         cases.append(("t.block", [OP_DECODE, [FIX_D8[0]], chunk, s2t(ESC + "["), 1]))
         cases.append(("t.block", [OP_COLOR, [], chunk, s2t("rgb(1,2,"), 1]))
-    # ---- digit runs around CPython's int() conversion limit (4300) in every numeric position
+    # ---- digit runs around CPython's int() conversion limit (4300) in every numeric position, one at a time
+    #      (the extracted model is quadratic in the string length: a few seconds per string)
     R = {"ok": "1" * 4300, "a1": "7" * 4301, "a5": "0" * 4999 + "9", "n1": "\u0663" * 4301, "n5": "\uff13" * 5000}
-    NUM = ["0", "255", "256", "", R["ok"], R["a1"], R["a5"], R["n1"], R["n5"]]
     LONG = [R["a1"], R["n1"], R["a5"]] if quick else [R["ok"], R["a1"], R["a5"], R["n1"], R["n5"]]
-    NUMS = ["0"] + LONG
-    def templ(op, extras, prefix, toks, n, lasts, close):
-        for last in lasts:
-            cases.append(("t.block", [op, extras, [s2t(x + ",") for x in toks], s2t(prefix), n, s2t(last + close)]))
-    templ(OP_COLOR, [], "rgb(", NUM, 2, NUM, ")")                      # rgb(a,b,c), all 729 combinations
-    templ(OP_COLOR, [], "color(", [], 0, NUM, ")")
-    templ(OP_STYLE, [], "bold on rgb(", NUMS, 2, NUMS, ") link x")
-    templ(OP_STYLE, [], "rgb(", NUMS, 2, NUMS, ")")
-    templ(OP_NORM, [], "not bold rgb(", NUMS, 2, NUMS, ")")
-    templ(OP_GET, [], "on rgb(", NUMS, 2, NUMS, ")")
-    templ(OP_GETD, extras_for(OP_GETD), "rgb(", NUMS, 2, NUMS, ")")
-    templ(OP_MARKUP, extras_for(OP_MARKUP), "[rgb(", NUMS, 2, NUMS, ")]x[/]")
-    templ(OP_MARKUP, extras_for(OP_MARKUP), "[b]x[/rgb(", NUMS, 2, NUMS, ")]")
-    templ(OP_TEXT, [], "", NUMS, 1, NUMS, "")
+    def one(op, s, k=0):
+        cases.append(("t.one", [op, extras_for(op, k=k), s2t(s)]))
+    for x in LONG:
+        for s in (f"rgb({x},0,0)", f"rgb(0,{x},0)", f"rgb(0,0,{x})", f"color({x})", f"rgb({x},{x},{x})"):
+            one(OP_COLOR, s)
+        for s in (f"bold on rgb({x},0,0)", f"rgb(0,{x},0) link x", f"not bold rgb(0,0,{x})", f"on color({x})"):
+            one(OP_STYLE, s)
+        one(OP_NORM, f"rgb(0,{x},0)")
+        one(OP_GET, f"on rgb({x},0,0)")
+        one(OP_GETD, f"rgb(0,0,{x})")
+        for s in (f"[rgb({x},0,0)]x[/]", f"[b]x[/rgb(0,0,{x})]", f"[on rgb(0,{x},0)]x"):
+            one(OP_MARKUP, s)
+        for s in (f"{ESC}[{x}m", f"a{ESC}[38;5;{x}mz", f"{ESC}[38;2;{x};0;0m", f"{ESC}[48;2;0;{x};0m", f"{ESC}[38;2;0;0;{x}m",
+                  f"{ESC}[1;{x};1m", f"{ESC}[{x};{x}m"):
+            one(OP_DECODE, s)
+        one(OP_TEXT, x)
+    NUM0 = ["0", "255", "256", "", "\u00b2", " 1 "]
+    for last in NUM0:                                                  # rgb(a,b,c), all short combinations
+        cases.append(("t.block", [OP_COLOR, [], [s2t(v + ",") for v in NUM0], s2t("rgb("), 2, s2t(last + ")")]))
     # ---- SGR sequences ESC [ p1;...;pk m, k = 0..5 parameters (every truncation of 38;2;r;g;b / 38;5;n, with and
     #      without a trailing ';', sequences ending right after 38 / 48), text around them
     SGRP = ["", "0", "1", "2", "5", "38", "48", "255", "300", "x", "\u00b2"]
@@ -219,17 +224,18 @@ def generate(rng, tier):
             for last in toks:
                 cases.append(("t.block", [OP_DECODE, [FIX_D8[0]], [s2t(x + ";") for x in toks], s2t(pre), k - 1, s2t(last + post)]))
     sgr(SGRP, 5 if quick else 6)
-    sgr(["38", "48", "2", "5", "0"] + LONG, 3 if quick else 4)
     sgr(["38", "48", "2", "5"], 4, pre=ESC + "[1;", post="m" + ESC + "[0m")
     # ---- Console.print: all token strings up to 2 (quick) / 3 tokens, random token strings, random Unicode
     pl = 2 if quick else 3
     pstr = ["".join(t) for L in range(0, pl + 1) for t in itertools.product(TOKENS, repeat=L)]
-    for _ in range(1200 if quick else 20000):
+    for _ in range(800 if quick else 20000):
         pstr.append("".join(rng.choice(TOKENS) for _ in range(rng.choice([3, 4, 5, 6, 9]))))
     pstr += strs[: (500 if quick else 10000)]
-    for x in LONG:                         # a style with a long digit run reaches Color.parse through Text.render
-        pstr += [f"[rgb({x},0,0)]x[/]", f"[on rgb(0,{x},0)]x", f"rgb({x},0,0) " + ESC + f"[{x}m", f"[link=x rgb(0,0,{x})]y"]
+    plong = []
+    for x in LONG[:3]:                     # a style with a long digit run reaches Color.parse through Text.render
+        plong += [f"[rgb({x},0,0)]x[/]", f"[on rgb(0,{x},0)]x", f"[link=x rgb(0,0,{x})]y"]
     cases += gen_prints(rng, pstr)
+    cases += gen_prints(rng, plong, widths=[80, 200])
     # ---- Columns(width=...): every n 1..6 x cwid 1..40 x W 1..40 (+ wide) x fill order
     for n in range(1, 7 if quick else 13):
         for cf in (0, 1):
@@ -240,7 +246,7 @@ def generate(rng, tier):
     # ---- renderable trees x all widths 1..200
     try:
         import l_layout
-        nt = 40 if quick else 600
+        nt = 30 if quick else 400
         for _ in range(nt):
             t = l_layout.gen_r(rng, 0, [rng.choice([4, 8, 16])])
             for lo in range(1, 201, 50):
